@@ -19,6 +19,7 @@
 package consensus
 
 import (
+	"errors"
 	"fmt"
 	"reflect"
 	"sync"
@@ -841,7 +842,10 @@ type ProposalMessage struct {
 
 // ValidateBasic performs basic validation.
 func (m *ProposalMessage) ValidateBasic() error {
-	return nil
+	if m.Proposal == nil {
+		return errors.New("nil Proposal")
+	}
+	return m.Proposal.ValidateBasic()
 }
 
 // ProposalPOLMessage is sent when a previous proposal is re-proposed.
